@@ -182,7 +182,12 @@ impl Stmt {
             }
             Stmt::Switch(v, clauses) => {
                 let mut s = format!("{pad}switch ({}) {{\n", v.print());
-                for (c, body) in clauses {
+                for (i, (c, body)) in clauses.iter().enumerate() {
+                    // comments are extras of the grammar: some clauses get one in front (a deterministic function of the
+                    // shape, so that the same AST always prints the same text), which must not change anything
+                    if (i + clauses.len() + body.len()) % 3 == 0 {
+                        s.push_str(&format!("{pad}// clause {i}\n"));
+                    }
                     match c {
                         Some(e) => s.push_str(&format!("{pad}case {}:\n", e.print())),
                         None => s.push_str(&format!("{pad}default:\n")),
@@ -190,6 +195,9 @@ impl Stmt {
                     for x in body {
                         s.push_str(&x.print(indent + 4));
                     }
+                }
+                if clauses.len() % 2 == 1 {
+                    s.push_str(&format!("{pad}/* end of clauses */\n"));
                 }
                 s.push_str(&format!("{pad}}}\n"));
                 s
